@@ -297,14 +297,15 @@ const snapEps = 1.001e-12
 
 // analytic shapes for the two-sided distance / normal checks
 type analytic struct {
-	s     sdf.SDF3
-	f     func(oracle.V3) float64
-	desc  string
-	kind  string
-	surf  func(t *rapid.T, i int, diag float64) (v3.Vec, bool) // a resolvable surface point
-	R     float64
-	c     v3.Vec
-	place *shape.Node
+	s        sdf.SDF3
+	f        func(oracle.V3) float64
+	desc     string
+	kind     string
+	kindNote string
+	surf     func(t *rapid.T, i int, diag float64) (v3.Vec, bool) // a resolvable surface point
+	R        float64
+	c        v3.Vec
+	place    *shape.Node
 }
 
 func rot(n *shape.Node, p v3.Vec) v3.Vec {
@@ -314,8 +315,12 @@ func rot(n *shape.Node, p v3.Vec) v3.Vec {
 	return p
 }
 
-func drawAnalytic(t *rapid.T, S float64) (*analytic, bool) {
+func drawAnalytic(t *rapid.T, S float64, cells int) (*analytic, bool) {
 	kind := rapid.SampledFrom([]string{"sphere", "box", "cylinder", "cone"}).Draw(t, "shape")
+	wholeCells := rapid.IntRange(0, 3).Draw(t, "box-with-whole-cell-sides") == 0
+	if wholeCells {
+		kind = "box"
+	}
 	c := v3.Vec{X: g.Coord(t, "cx", 5*S), Y: g.Coord(t, "cy", 5*S), Z: g.Coord(t, "cz", 5*S)}
 	// orthonormal frame for the placement (own construction)
 	ax := v3.Vec{X: g.Coord(t, "ax", 1), Y: g.Coord(t, "ay", 1), Z: g.Coord(t, "az", 1)}
@@ -323,6 +328,15 @@ func drawAnalytic(t *rapid.T, S float64) (*analytic, bool) {
 		ax = v3.Vec{Z: 1}
 	}
 	ang := g.Angle(t, "ang")
+	// a third of the solids keep the library's own orientation: flat faces and caps lie in the planes of the
+	// bounding box, and the box is often not moved either
+	aligned := rapid.IntRange(0, 2).Draw(t, "axis-aligned") == 0 || wholeCells
+	if aligned {
+		ax, ang = v3.Vec{Z: 1}, 0
+		if rapid.Bool().Draw(t, "at-origin") {
+			c = v3.Vec{}
+		}
+	}
 	node := &shape.Node{Op: "xform3", I: []int{0, 0}, P: []float64{ax.X, ax.Y, ax.Z, ang, c.X, c.Y, c.Z}}
 	// forward map: columns are the images of the basis vectors, obtained by inverting the inverse on a basis
 	fwd := func(q v3.Vec) v3.Vec {
@@ -346,6 +360,25 @@ func drawAnalytic(t *rapid.T, S float64) (*analytic, bool) {
 		}
 	case "box":
 		sx, sy, sz := g.Length(t, "sx", 0.3*S, 2*S), g.Length(t, "sy", 0.3*S, 2*S), g.Length(t, "sz", 0.3*S, 2*S)
+		if wholeCells {
+			// sides that are whole multiples of the cell (sizes like 1.2 x 0.72 x 0.48 at 25 cells): size / cell is
+			// an integer up to rounding, on either side of it
+			L := S * rapid.SampledFrom([]float64{1.2, 0.5, 4.4, 1, 0.3, 1.7, 2.25}).Draw(t, "longest-side")
+			if rapid.Bool().Draw(t, "longest-side-free") {
+				L = g.Length(t, "longest-side-length", 0.3*S, 2*S)
+			}
+			k := [3]int{cells, rapid.IntRange(cells/3+1, cells).Draw(t, "cells-2nd-side"), rapid.IntRange(cells/3+1, cells).Draw(t, "cells-3rd-side")}
+			o := rapid.IntRange(0, 2).Draw(t, "longest-axis")
+			sd := [3]float64{}
+			for i := 0; i < 3; i++ {
+				sd[(i+o)%3] = L * float64(k[i]) / float64(cells)
+				if rapid.Bool().Draw(t, fmt.Sprintf("side-form%d", i)) {
+					sd[(i+o)%3] = L / float64(cells) * float64(k[i])
+				}
+			}
+			sx, sy, sz = sd[0], sd[1], sd[2]
+			a.kindNote = "whole-cell-sides"
+		}
 		leaf = &shape.Node{Op: "box3", P: []float64{sx, sy, sz, 0}}
 		a.surf = func(t *rapid.T, i int, diag float64) (v3.Vec, bool) {
 			h := [3]float64{sx / 2, sy / 2, sz / 2}
@@ -427,13 +460,16 @@ func TestMeshNearSurface(t *testing.T) {
 	rapid.Check(t, func(t *rapid.T) {
 		r := rapid.SampledFrom(renderers).Draw(t, "renderer")
 		S := rapid.SampledFrom([]float64{1, 10, 1e-7, 1e-4, 1e4}).Draw(t, "scale")
-		a, ok := drawAnalytic(t, S)
+		cells := rapid.IntRange(6, ev.Pick(28, 48)).Draw(t, "cells")
+		a, ok := drawAnalytic(t, S, cells)
 		if !ok {
 			rec.Count("discarded:constructor-rejected", 1)
 			rec.Case(false, "", "discarded")
 			return
 		}
-		cells := rapid.IntRange(6, ev.Pick(28, 48)).Draw(t, "cells")
+		if a.kindNote != "" {
+			rec.Label("near:box:" + a.kindNote)
+		}
 		ts := render.ToTriangles(a.s, r.mk(cells))
 		h := a.s.BoundingBox().Size().MaxComponent() / float64(cells)
 		diag := math.Sqrt(3) * h
